@@ -100,7 +100,7 @@ func judgeSub(v *harness.Verdict, s subView) {
 	// "every log answers" is about the logs in play: those that may be contacted and those that were.
 	hang := false
 	for i, b := range s.Beh {
-		if b.Kind == behHang && (s.Eligible == nil || s.Eligible[i] || perLog[i] > 0) {
+		if (b.Kind == behHang || b.Kind == behStuck) && (s.Eligible == nil || s.Eligible[i] || perLog[i] > 0) {
 			hang = true
 		}
 	}
